@@ -176,8 +176,10 @@ def polygon_triangulate(tri_idx, *args):
     return triangles
 
 
-def make_quad_mesh(points, size_u, size_v):
+def make_quad_mesh(points, size_u, size_v, **kwargs):
     """ Generates a mesh of quadrilateral elements.
+
+    Keyword arguments passed by the callers of the triangular mesh generator (e.g. ``trims``) are accepted and ignored.
 
     :param points: list of points
     :type points: list, tuple
@@ -192,10 +194,11 @@ def make_quad_mesh(points, size_u, size_v):
     vertex_idx = 0
     quad_idx = 0
 
-    # Generate vertices
+    # Generate vertices (the points are ordered as v + size_v * u; keep the parametric position of each vertex)
     vertices = []
     for pt in points:
         vrt = Vertex(*pt, id=vertex_idx)
+        vrt.uv = [float(vertex_idx // size_v) / float(max(size_u - 1, 1)), float(vertex_idx % size_v) / float(max(size_v - 1, 1))]
         vertices.append(vrt)
         vertex_idx += 1
 
